@@ -21,7 +21,9 @@ kinds
   cache             functools.lru_cache / cache / cached_property (or any decorator named *cache*)
   param-mutation    a function mutates one of its parameters (or an alias / element of it) in place
   shared-mutation   a function mutates something reached from a class attribute, a module global or a
-                    known-tokens style accessor (cls.X / self.X with X a class-level name / Global[...])
+                    known-tokens style accessor (cls.X / self.X with X a class-level name / Global[...]), or
+                    binds / deletes an attribute of a class or module-level object named directly
+                    (`ClassName.attr = …`, `setattr(ClassName, …)`: a memo parked on the class)
   self-mutation     a method other than __init__/__post_init__/set_*/property setter assigns to or mutates
                     an attribute of self (codec objects that change when they are serialised / queried)
   ambient-read      a use of time / datetime / random / secrets / uuid / os.environ / os.urandom / os.getpid
@@ -438,9 +440,15 @@ class ModuleScan:
 
         muts = {}  # (kind, origin) -> set of op strings
 
-        def note(target_expr, op):
-            """target_expr: the object that is mutated in place"""
+        def note(target_expr, op, attr_write=False):
+            """target_expr: the object that is mutated in place (attr_write: one of its attributes is (re)bound or deleted)"""
             t = expr_taint(target_expr)
+            if t is None and attr_write and isinstance(target_expr, ast.Name) and target_expr.id not in taint and (
+                target_expr.id[:1].isupper() or target_expr.id in globs
+            ):
+                # `ClassName.attr = …` / `setattr(ClassName, …)` / `GLOBAL.attr = …`: a (new) attribute of a class or
+                # module-level object written from inside a function is state shared by all later calls
+                t = (SHARED, target_expr.id)
             if t is None:
                 return
             cls_, origin = t
@@ -467,7 +475,7 @@ class ModuleScan:
                     if isinstance(tg, ast.Subscript):
                         note(tg.value, f"{short(tg.value, 40)}[..] {'op=' if isinstance(node, ast.AugAssign) else '='}")
                     elif isinstance(tg, ast.Attribute):
-                        note(tg.value, f"{short(tg, 40)} {'op=' if isinstance(node, ast.AugAssign) else '='}")
+                        note(tg.value, f"{short(tg, 40)} {'op=' if isinstance(node, ast.AugAssign) else '='}", attr_write=True)
                     elif isinstance(tg, ast.Name) and isinstance(node, ast.AugAssign):
                         # `x += ..` on a list / bitarray / bytearray parameter is in place
                         t = taint.get(tg.id)
@@ -478,10 +486,12 @@ class ModuleScan:
             elif isinstance(node, ast.Delete):
                 for tg in node.targets:
                     if isinstance(tg, (ast.Subscript, ast.Attribute)):
-                        note(tg.value, f"del {short(tg, 40)}")
+                        note(tg.value, f"del {short(tg, 40)}", attr_write=isinstance(tg, ast.Attribute))
             elif isinstance(node, ast.Call) and isinstance(node.func, ast.Attribute):
                 if node.func.attr in MUTATING_METHODS or node.func.attr.startswith("set_"):
                     note(node.func.value, f"{short(node.func, 50)}()")
+            elif isinstance(node, ast.Call) and isinstance(node.func, ast.Name) and node.func.id in ("setattr", "delattr") and node.args:
+                note(node.args[0], f"{node.func.id}({short(node.args[0], 40)}, ..)", attr_write=True)
             elif isinstance(node, (ast.Global, ast.Nonlocal)):
                 self.add(q, "global-write", f"{type(node).__name__.lower()} {', '.join(node.names)}")
 
